@@ -33,11 +33,15 @@ def corruptions(rng, base, quick=True, cap=110):
     for i in range(len(base)):
         if base[i] == 0 and (i % 32 in (0, 11, 31) or rng.random() < 0.05):
             out.append((f"CB {i} 1", lambda b, i=i: b[:i] + b"\x01" + b[i + 1:]))
+    # truncations / extensions first (they are given to every entry point), then the word/byte corruptions
+    te = [c for c in out if c[0].startswith(("CT", "CX"))]
+    rest = [c for c in out if not c[0].startswith(("CT", "CX"))]
     if len(out) > cap:
-        keep = [c for c in out if c[0].startswith(("CT", "CX"))][:30]
-        rest = [c for c in out if not c[0].startswith(("CT", "CX"))]
+        if len(te) > 30:
+            te = te[:9] + te[9::max(1, (len(te) - 9) // 21)][:21]
         rng.shuffle(rest)
-        out = keep + rest[:cap - len(keep)]
+        rest = rest[:cap - len(te)]
+    out = te + rest
     return out
 
 
@@ -47,6 +51,9 @@ def build_source(t):
     n = A.size_bound(("tuple", (t,))) + 96
     has_len = t[0] in ("bytes", "string", "darr")
     LN = f"@external\ndef ln(x: {T}) -> uint256:\n    return len(x)\n" if has_len else ""
+    if t[0] in A.SCALARS:
+        # bare word, no tuple wrapping: the payload must be exactly one word
+        LN += f"\n@external\ndef dec_nt(b: Bytes[{n}]) -> {T}:\n    return abi_decode(b, {T}, unwrap_tuple=False)\n"
     src = d.text() + f"""
 interface Ret:
     def get() -> {T}: view
@@ -129,6 +136,8 @@ def run_job(job):
                     r = ch.call(main, mids["ln"] + data)
                 elif kind == "mem":
                     r = ch.call(main, mids["dec"] + enc_bytes_arg(data))
+                elif kind == "memnt":
+                    r = ch.call(main, mids["dec_nt"] + enc_bytes_arg(data))
                 elif kind == "ctor":
                     a = ch.deploy(init + data)
                     if a is None:
